@@ -397,6 +397,16 @@ def rule_guard(ctx, px):
     ok = len(asg) == 1 and isinstance(asg[0].value, ast.Name) and asg[0].value.id in iparams
     ctx.ob(R, init.module.rel, "CodeGenEnvironment :: _allow_replacements comes from the constructor argument only", ok, "", init.node.lineno)
 
+    # steps of the constructor that write self.globals from a private method are judged where the constructor calls them
+    if init.cls is not None:
+        import copy as _copy
+        writers_ = {k_: m_.node for k_, m_ in init.cls.methods.items() if k_ != "__init__" and k_.startswith("_") and not k_.startswith("__")
+                    and any(isinstance(n_, ast.Attribute) and n_.attr == "globals" and ast.unparse(n_.value) == "self" for n_ in ast.walk(m_.node))
+                    and any(isinstance(c_, ast.Call) and isinstance(c_.func, ast.Attribute) and c_.func.attr == k_ for c_ in ast.walk(init.node))}
+        if writers_:
+            init_ = _copy.copy(init)
+            init_.node = pyfront.inline_procedures(init.node, {}, suffix="", methods=writers_)
+            init = init_
     # --- globals -----------------------------------------------------------------------------------------------
     user_stores = []
     ug = next((a_.arg for a_ in init.node.args.args + init.node.args.kwonlyargs if a_.arg == "additional_globals"), None)
@@ -661,6 +671,16 @@ def rule_tests(ctx, px):
                 if isinstance(cur, ast.For) and isinstance(cur.target, ast.Name) and cur.target.id == a0.id and isinstance(cur.iter, (ast.Tuple, ast.List)):
                     roots += [ast.unparse(e) for e in cur.iter.elts]
                     expanded = True
+                    break
+            # ... or in a comprehension whose generator walks the literal sequence of roots
+            cur = c
+            while not expanded and id(cur) in pm_all and isinstance(a0, ast.Name):
+                cur = pm_all[id(cur)]
+                if isinstance(cur, (ast.DictComp, ast.ListComp, ast.SetComp, ast.GeneratorExp)):
+                    for g_ in cur.generators:
+                        if isinstance(g_.target, ast.Name) and g_.target.id == a0.id and isinstance(g_.iter, (ast.Tuple, ast.List)) and not g_.ifs:
+                            roots += [ast.unparse(e) for e in g_.iter.elts]
+                            expanded = True
                     break
             if not expanded:
                 roots.append(ast.unparse(a0))
